@@ -121,7 +121,16 @@ public:
             return;
         }
 
-        std::size_t const bin_x = shifted_x / parameters.bin_size_x();
+        T const position_x = shifted_x / parameters.bin_size_x();
+
+        if (!(position_x < T(parameters.bins_x())))
+        {
+            // point is right of the range that we are binning, or not a number; must be checked
+            // before the conversion, which is undefined for these values
+            return;
+        }
+
+        std::size_t const bin_x = position_x;
 
         if (bin_x >= parameters.bins_x())
         {
@@ -172,7 +181,17 @@ public:
             return;
         }
 
-        std::size_t const bin_x = shifted_x / parameters.bin_size_x();
+        T const position_x = shifted_x / parameters.bin_size_x();
+        T const position_y = shifted_y / parameters.bin_size_y();
+
+        if (!(position_x < T(parameters.bins_x())) || !(position_y < T(parameters.bins_y())))
+        {
+            // point is outside the range that we are binning, or not a number; must be checked
+            // before the conversions, which are undefined for these values
+            return;
+        }
+
+        std::size_t const bin_x = position_x;
 
         if (bin_x >= parameters.bins_x())
         {
@@ -180,7 +199,7 @@ public:
             return;
         }
 
-        std::size_t const bin_y = shifted_y / parameters.bin_size_y();
+        std::size_t const bin_y = position_y;
 
         if (bin_y >= parameters.bins_y())
         {
